@@ -181,7 +181,9 @@ pub fn row_diff(ri: &RiRow, real: &RealRow, proj: Projection) -> Option<String> 
             if ro.is_virtual && real_o.bits != 64 {
                 return Some(format!("virtual signal {} is {} bits wide, should be 64", ro.name, real_o.bits));
             }
-            if proj.expected && real_o.expected != ro.expected {
+            // under the virtual-only projection an expected value that the program computes
+            // is not looked at (what expressions evaluate to is other properties' business)
+            if proj.expected && !(proj.virtual_only && !ro.expected_is_literal) && real_o.expected != ro.expected {
                 return Some(format!(
                     "expected value of {} is {}, should be {}",
                     ro.name, real_o.expected, ro.expected
@@ -294,4 +296,25 @@ pub fn next_budget(t: &RiTrace) -> usize {
 
 pub fn built_text(b: &Built) -> String {
     crate::print::canonical(&b.prog).text
+}
+
+/// Second opinion for reference-based checks other than C02/C05: re-run the reference with the
+/// device answers computed from the call indices the real driver actually saw, and compare
+/// again. A difference that disappears was only caused by the crate making more or fewer driver
+/// calls than the protocol prescribes - C02's business, not this property's.
+pub fn still_differs_with_real_call_indices(
+    prog: &crate::model::Program,
+    sigs: &[Sig],
+    spec: &DriverSpec,
+    opts: &RiOpts,
+    real: &RealRun,
+    proj: Projection,
+) -> bool {
+    if real.log.len() == 1 + real.items.len() {
+        // protocol intact: the second opinion would be identical
+        return true;
+    }
+    let map: Vec<usize> = (0..real.items.len()).map(|i| real.log_len_before.get(i).copied().unwrap_or(0)).collect();
+    let t = crate::ri::run(prog, sigs, spec, &RiOpts { call_of_item: Some(map), ..opts.clone() });
+    trace_diff(&t, real, proj).is_some()
 }
